@@ -158,9 +158,10 @@ CURATED = [
      'bytes(code)',
      'PRINT "€"', 'C06-D36-non-cp437-string-literal.diff', None),
     ('const-division-by-zero-debug-info',
-     [IE + r'ZeroDivisionError,qbee/expr\.py:BinaryOp\._eval_numeric\.<lambda>,bytes:.*\)'],
-     'CONST whose value divides by zero (`CONST k = 1.5 / 0`) compiles, but with -g the debug '
-     'section evaluates it: ZeroDivisionError in bytes(code)',
+     [IE + r'(ZeroDivisionError|OverflowError),qbee/expr\.py:BinaryOp\._eval_numeric\.(<lambda>|limit),bytes:.*\)'],
+     'CONST whose value cannot be evaluated (`CONST k = 1.5 / 0`, `CONST k = 2 ^ .5` whose float '
+     'result is range-checked as an integer) compiles, but with -g the debug section evaluates '
+     'it: ZeroDivisionError / OverflowError in bytes(code)',
      'CONST kc = 1.5 / 0', None, None),
     ('unary-op-on-string-folded',
      [IE + r'EvalError,qbee/expr\.py:UnaryOp\.eval,.*\)'],
@@ -178,6 +179,24 @@ CURATED = [
      'constant ^ whose result is complex or a float in an integral type (`y% = (-1) ^ .5`, '
      '`x = 2 ^ (-1)`): TypeError in the folder\'s range check at -O1/-O2 (and for CONST at every level)',
      'y% = (-1) ^ .5', None, None),
+    ('builtin-function-without-arguments',
+     [IE + r'IndexError,qbee/expr\.py:BuiltinFuncCall\.type\.<lambda>,.*\)'],
+     'a builtin function that needs an argument written without one inside an expression '
+     '(`PRINT ABS - (1.1)`): its type is asked for (self.args[0]) before the argument count is '
+     'checked: IndexError',
+     'PRINT ABS - (1.1)', None, None),
+    ('block-statement-in-single-line-if',
+     [IE + r'InternalError,qbee/codegen\.py:BaseCodeGen\.gen_code_for_node,'
+      r'raise-InternalError:Cannot-generate-code-for-node-(?!Else|CaseElse)[A-Za-z]+Stmt\)'],
+     'a block statement as the THEN / ELSE part of a single-line IF (`IF x THEN SUB s`, '
+     '`IF x THEN NEXT`): the block parser never sees it, the code generator has no generator '
+     'for it: InternalError',
+     'IF x THEN SUB s', None, None),
+    ('fold-logical-op-huge-operand',
+     [IE + r'error,qbee/expr\.py:Type\.can_hold,.*\)'],
+     'a logical operator on a constant beyond LONG (`y = 1D+308 IMP 1`): the folder asks whether '
+     'a SINGLE can hold a huge int: struct.error at -O1/-O2',
+     'y = 1D+308 IMP 1', None, None),
     ('nesting-depth-recursion',
      [IE + r'RecursionError,.*\)'],
      'expression nesting of about 10 levels (parentheses, calls, indices) exhausts the Python '
